@@ -259,7 +259,7 @@ def fam_c10(ctx):
                                   [["sig", "HUP", 1, 1]]], stride=1)
     base = [(["select.pre", 2], [["sig", "HUP", 1, 0]])]
     S += inject_everywhere(base, [[["sig", "HUP", 2, 0]], [["die", "oldest", 9]], [["sig", "TTIN"]]], nw=3, stride=1)
-    n = 500 if ctx.quick else 5000
+    n = 800 if ctx.quick else 5000
     for i in range(n):
         S.append(rnd(ctx.seed * 100000 + 60000 + i, nw=rng.choice([1, 2, 3]), timeout=rng.choice([2, 3]),
                      events=rng.choice([2, 4, 8]), sigs=["HUP", "HUP", "HUP", "TTIN", "TTOU"], die=1, sig=4,
@@ -287,7 +287,7 @@ def fam_c04(ctx):
         basestop = [(["select.pre", 3], [["hang", "oldest", 1]]), (["select.pre", 4], [["sig", sig]])]
         S += inject_everywhere(basestop, [[["sig", "INT"]], [["sig", "TERM"]], [["sig", "HUP", 2, 0]],
                                           [["die", "youngest", 256]], [["sig", "TTIN"]]], stride=1, graceful=2)
-    n = 400 if ctx.quick else 4000
+    n = 700 if ctx.quick else 4000
     for i in range(n):
         S.append(rnd(ctx.seed * 100000 + 70000 + i, nw=rng.choice([1, 2, 3]), timeout=rng.choice([2, 3]),
                      graceful=rng.choice([1, 2, 3]), events=rng.choice([2, 4, 8]),
